@@ -9,13 +9,14 @@ use crate::setops::*;
 use nodejs_semver::Range;
 use serde_json::json;
 
-pub const RULE: &str = "cases = ordered pairs (A,B) of ranges; T exhaustive bound-kind table (every lower kind x upper kind over a 6-version chain incl. a prerelease and the successors, all ordered pairs of single intervals), M multi-alternative / parsed random operands, P random prerelease/big-number bounds, F results fed back as operands ((A∩B)∩C vs A∩(B∩C)); oracle = pointwise bounds membership from the hook (inb(A∩B,v) = inb(A,v) ∧ inb(B,v)), release/prerelease satisfaction clauses, exact emptiness by the interval model, commutativity and idempotence, on ≈30 probes per bound; non-trivial = operands overlap partially (some probe in both and some probe in exactly one); distinct = distinct operand text pairs";
+pub const RULE: &str = "cases = ordered pairs (A,B) of ranges; T exhaustive bound-kind table (every lower kind x upper kind over a 6-version chain incl. a prerelease and the successors, all ordered pairs of single intervals), M multi-alternative / parsed random operands, P random prerelease/big-number bounds, L long alternative lists (17..300 alternatives around 16/32/64/256, some 3000; pins, windows, nested, duplicated, tagged-late; every order) against small partners in both orders on a 256 KiB stack, F results fed back as operands ((A∩B)∩C vs A∩(B∩C)); oracle = pointwise bounds membership from the hook (inb(A∩B,v) = inb(A,v) ∧ inb(B,v)), release/prerelease satisfaction clauses, exact emptiness by the interval model, commutativity and idempotence, on ≈30 probes per bound; non-trivial = operands overlap partially (some probe in both and some probe in exactly one); distinct = distinct operand text pairs";
 
 pub fn judge_pair(ctx: &mut Ctx, a: &Operand, b: &Operand, feedback: Option<&Operand>) -> Option<Operand> {
     ctx.begin(|| format!("C07 {} ∩ {}", a.text, b.text));
     let w = json!({"a": a.text, "b": b.text});
     let tc = tie_cell(&a.b, &b.b);
-    let res = match guarded(|| (a.range.intersect(&b.range), b.range.intersect(&a.range), a.range.intersect(&a.range))) {
+    // A∩A has |A|² pieces: for long lists the idempotence clause is left to the shorter operands
+    let res = match guarded(|| (a.range.intersect(&b.range), b.range.intersect(&a.range), if a.b.0.len() <= 100 { a.range.intersect(&a.range) } else { Some(a.range.clone()) })) {
         Ok(r) => r,
         Err(p) => {
             ctx.violation(&format!("panic/{}/{}", p.site, message_class(&p.message)), w, p.message);
@@ -179,6 +180,26 @@ pub fn run(ctx: &mut Ctx) {
                 if let Some(b) = neighbour_operand(&mut r, &a) {
                     judge_pair(ctx, &a, &b, None);
                 judge_pair(ctx, &b, &a, None);
+                }
+            }
+        }
+    }
+    // long alternative lists (17..300, some 3000) against small partners, both orders, run
+    // on a 256 KiB stack: counts around 16/32/64/256 and stack depth following the list length
+    ctx.stratum("L-long-alternative-lists", false);
+    let n = ctx.tier.n(60, 2_000);
+    for i in 0..n {
+        if ctx.take() {
+            let mut r = Rng::for_case(ctx.seed, "C07-L", i);
+            if let Some(a) = long_alt_operand(&mut r, &tiv, true) {
+                if let Some(b) = long_partner(&mut r, &a, &tiv) {
+                    let done = on_small_stack(|| {
+                        judge_pair(ctx, &a, &b, None);
+                        judge_pair(ctx, &b, &a, None);
+                    });
+                    if done.is_none() {
+                        ctx.inconclusive("small-stack thread ended without a result");
+                    }
                 }
             }
         }
